@@ -176,6 +176,17 @@ theorem guarantee_valid (valid : Bytes → Bool) (N : Nat) (col : Col) (cells : 
     (mkGuar col.ct col.nullable cells.length (colStats valid N col.ct cells)).Valid cell :=
   mkGuar_valid valid N col cells ht hn htr cell hc
 
+/-- INTERVAL_ORDERED: `Interval::try_new(min, max).unwrap()` in extract_guarantees never panics — the lower bound handed to
+    DataFusion is `≤` the upper bound whenever both are present, for every page (NaN and short utf8 cuts included) -/
+theorem interval_ordered (valid : Bytes → Bool) (N : Nat) (ct : CT) (cells : List Cell)
+    (hr : match ct with | .int lo hi => lo ≤ hi | .float P => 1 ≤ P | _ => True) (a b : Val)
+    (ha : mkLo ct (colStats valid N ct cells).mn = some a) (hb : mkHi ct (colStats valid N ct cells).mx = some b) :
+    a.le b = true :=
+  interval_ordered_aux valid N ct cells hr a b ha hb
+
+example : mkLo (.float 10) (colStats validUtf8 64 (.float 10) [some (.int 10), some (.int 11)]).mn = some (.int 9) ∧
+    mkHi (.float 10) (colStats validUtf8 64 (.float 10) [some (.int 10), some (.int 11)]).mx = none := by decide
+
 /-- DECISION_SOUND (the DataFusion side, as mirrored): under guarantees that hold for a row — none of them a single-valued
     MaybeNull — a predicate simplified to literal `false` / `true` / `NULL` evaluates to exactly that on the row -/
 theorem decision_sound (gs : List Guar) (r : Row)
